@@ -71,13 +71,31 @@ def num_spec(ty, v):
     return dict(t="num", ty=ty, x=float(v).hex())
 
 
-def nd_spec(dt, vs):
+ND_SUBS = ("ma", "mam", "my1", "my50")   # MaskedArray (nothing masked / some masked), ndarray subclass views
+_SUBCLASSES = {}
+
+
+def nd_subclass(priority):
+    """a trivial ndarray subclass with the given __array_priority__ (used as `arr.view(cls)`)"""
+    np = _np()
+    if priority not in _SUBCLASSES:
+        _SUBCLASSES[priority] = type("MyArr%d" % int(priority), (np.ndarray,), {"__array_priority__": float(priority)})
+    return _SUBCLASSES[priority]
+
+
+def nd_spec(dt, vs, sub=None, mask=None):
     np = _np()
     if dt == "i64":
-        return dict(t="nd", dt=dt, xs=[int(v) for v in vs])
-    if dt == "f32":
-        return dict(t="nd", dt=dt, xs=[float(np.float32(v)).hex() for v in vs])
-    return dict(t="nd", dt=dt, xs=[float(v).hex() for v in vs])
+        d = dict(t="nd", dt=dt, xs=[int(v) for v in vs])
+    elif dt == "f32":
+        d = dict(t="nd", dt=dt, xs=[float(np.float32(v)).hex() for v in vs])
+    else:
+        d = dict(t="nd", dt=dt, xs=[float(v).hex() for v in vs])
+    if sub:
+        d["sub"] = sub
+        if sub == "mam":
+            d["mask"] = [bool(m) for m in (mask if mask is not None else [i % 2 == 1 for i in range(len(vs))])]
+    return d
 
 
 def array_spec(q, kind, vs, ints=False):
@@ -106,7 +124,17 @@ def build(spec):
         return num_object(spec["ty"], spec["x"])
     if t == "nd":
         dt = {"f64": np.float64, "f32": np.float32, "i64": np.int64}[spec["dt"]]
-        return np.array([val(x) for x in spec["xs"]], dtype=dt)
+        arr = np.array([val(x) for x in spec["xs"]], dtype=dt)
+        sub = spec.get("sub")
+        if sub == "ma":
+            return np.ma.masked_array(arr)
+        if sub == "mam":
+            return np.ma.masked_array(arr, mask=list(spec["mask"]))
+        if sub == "my1":
+            return arr.view(nd_subclass(1))
+        if sub == "my50":
+            return arr.view(nd_subclass(50))
+        return arr
     if t == "scalar":
         return Scalar.CreateWithQuantity(quantity(spec["q"]), value=val(spec["x"]))
     if t == "array":
@@ -142,7 +170,15 @@ def render(spec):
         name = {"f64": "numpy.float64", "f32": "numpy.float32", "i64": "numpy.int64", "i32": "numpy.int32"}.get(ty, ty)
         return "%s(%r)" % (name, val(spec["x"]))
     if t == "nd":
-        return "numpy.array(%r, dtype=%s)" % ([val(x) for x in spec["xs"]], spec["dt"])
+        base = "numpy.array(%r, dtype=%s)" % ([val(x) for x in spec["xs"]], spec["dt"])
+        sub = spec.get("sub")
+        if sub == "ma":
+            return "numpy.ma.masked_array(%s)" % base
+        if sub == "mam":
+            return "numpy.ma.masked_array(%s, mask=%r)" % (base, list(spec["mask"]))
+        if sub in ("my1", "my50"):
+            return "%s.view(<class MyArr(numpy.ndarray) with __array_priority__ = %s>)" % (base, sub[2:] + ".0")
+        return base
     if t == "junk":
         return {"str": "'x'", "none": "None", "list": "[1.0, 2.0]"}[spec["w"]]
     q = spec["q"]
@@ -182,7 +218,15 @@ def canon(r):
         if kind is None or (kind == "nd" and vs.ndim != 1):
             return dict(err="other", detail="values of type %s" % type(vs).__name__)
         out, f32 = [], False
-        for v in vs:
+        masked = None
+        if isinstance(vs, np.ma.MaskedArray):
+            # masked positions carry no value: reported as None and not compared
+            masked = [bool(m) for m in np.ma.getmaskarray(vs)]
+            vs = np.ma.getdata(vs)
+        for i, v in enumerate(vs):
+            if masked is not None and masked[i]:
+                out.append(None)
+                continue
             if isinstance(v, (bool, np.bool_)) or not isinstance(v, (int, float, np.integer, np.floating)):
                 return dict(err="other", detail="element of type %s" % type(v).__name__)
             if isinstance(v, np.float32):
@@ -247,6 +291,8 @@ def compare_values(impl_vs, model_vs, M, f32, pre=None):
     if len(impl_vs) != len(model_vs):
         return "lengths differ: impl %d model %d" % (len(impl_vs), len(model_vs))
     for i, (r, y) in enumerate(zip(impl_vs, model_vs)):
+        if r is None:
+            continue  # a masked position of a MaskedArray result
         rv, yv = val(r), qparse(y)
         if isinstance(rv, int):
             if Fraction(rv) != yv:
@@ -308,10 +354,9 @@ def setup_pools(ctx):
     ctx.qtypes = sorted(qt for qt in ctx.units if qt in cats and ctx.units[qt])
     ctx.fav = [(c, [u for u in us if u in ctx.units.get(db.GetCategoryQuantityType(c), [])])
                for c, us in FAV if c in db.categories_to_quantity_types]
-    # units with an offset (degC, degF, ...): converting them and scaling the result afterwards amplifies the
-    # rounding of the intermediate base value beyond K*eps*M, so they are kept out of derived quantities and of
-    # unit-matching products (that numeric ground is engine Alg's); sums, differences and everything without a
-    # conversion use them freely
+    # units with an offset (degC, degF, psig, ...).  Since repair 1e63d4c they are scaled inside derived quantities
+    # and shifted only as SIMPLE operands; the driver's M accounts for both (Drivers/Ops.lean), so they are used
+    # everywhere: simple, derived at exponent 1 and != 1, twin and mixed-unit dicts
     ctx.affine = set()
     for qt, us in ctx.units.items():
         for u in us:
@@ -320,11 +365,8 @@ def setup_pools(ctx):
                     ctx.affine.add(u)
             except Exception:
                 ctx.affine.add(u)
-    ctx.linear = {qt: [u for u in us if u not in ctx.affine] for qt, us in ctx.units.items()}
-    ctx.lin_qtypes = [qt for qt in ctx.qtypes if ctx.linear[qt]]
-    ctx.multi = sorted(qt for qt in ctx.lin_qtypes if len(cats[qt]) > 1 and len(ctx.linear[qt]) > 1)
-    ctx.fav_lin = [(c, [u for u in us if u not in ctx.affine]) for c, us in ctx.fav]
-    ctx.fav_lin = [(c, us) for c, us in ctx.fav_lin if us]
+    ctx.affine_qtypes = sorted(qt for qt in ctx.qtypes if any(u in ctx.affine for u in ctx.units[qt]))
+    ctx.multi = sorted(qt for qt in ctx.qtypes if len(cats[qt]) > 1 and len(ctx.units[qt]) > 1)
 
 
 def simple_q(ctx, rng, fav=0.6):
@@ -338,20 +380,22 @@ def simple_q(ctx, rng, fav=0.6):
 def derived_q(ctx, rng, shape=None):
     """normal: distinct quantity types, non-zero exponents; twin: two categories of one type with one unit;
     mixed: two categories of one type with two units; zero: contains a zero exponent"""
-    shape = shape or rng.choice(["normal"] * 5 + ["twin", "mixed", "zero"])
+    shape = shape or rng.choice(["normal"] * 5 + ["twin", "mixed", "zero", "affine", "affine", "affine-mixed"])
     if shape in ("twin", "mixed") and ctx.multi:
         qt = rng.choice(ctx.multi)
         c1, c2 = rng.sample(ctx.cats[qt], 2)
-        u1 = rng.choice(ctx.linear[qt])
-        u2 = u1 if shape == "twin" else rng.choice([u for u in ctx.linear[qt] if u != u1])
+        u1 = rng.choice(ctx.units[qt])
+        u2 = u1 if shape == "twin" else rng.choice([u for u in ctx.units[qt] if u != u1])
         return [[c1, u1, rng.choice([1, 1, 2, -1])], [c2, u2, rng.choice([1, 1, 2])]]
     n = rng.choice([1, 2, 2, 3])
-    qts = rng.sample(ctx.lin_qtypes, n)
-    if rng.random() < 0.6 and ctx.fav_lin:
-        favs = rng.sample(ctx.fav_lin, min(n, len(ctx.fav_lin)))
+    if shape in ("affine", "affine-mixed"):
+        return affine_q(ctx, rng, mixed=(shape == "affine-mixed"))
+    qts = rng.sample(ctx.qtypes, n)
+    if rng.random() < 0.6 and ctx.fav:
+        favs = rng.sample(ctx.fav, min(n, len(ctx.fav)))
         q = [[c, rng.choice(us), rng.choice([-2, -1, 1, 2, 3])] for c, us in favs]
     else:
-        q = [[rng.choice(ctx.cats[qt]), rng.choice(ctx.linear[qt]), rng.choice([-2, -1, 1, 2, 3])] for qt in qts]
+        q = [[rng.choice(ctx.cats[qt]), rng.choice(ctx.units[qt]), rng.choice([-2, -1, 1, 2, 3])] for qt in qts]
     if shape == "zero":
         q[rng.randrange(len(q))][2] = 0
         if len(q) == 1:
@@ -361,23 +405,43 @@ def derived_q(ctx, rng, shape=None):
     return q
 
 
-def tame(ctx, f, q1, q2):
-    """for * / //: an item of q2 whose quantity type also occurs in q1 with another unit takes q1's unit when one
-    of the two units has an offset (see setup_pools)"""
-    if f in ("sum", "sub"):
-        return q2
-    try:
-        seen = {ctx.db.GetCategoryQuantityType(c): u for c, u, _e in q1}
-        out = []
-        for c, u, e in q2:
-            qt = ctx.db.GetCategoryQuantityType(c)
-            u1 = seen.get(qt)
-            if u1 is not None and u1 != u and (u in ctx.affine or u1 in ctx.affine):
-                u = u1
-            out.append([c, u, e])
-        return out
-    except Exception:
-        return q2
+def affine_q(ctx, rng, mixed=False):
+    """a derived quantity with an item of a quantity type that has offset units (temperature, pressure) at
+    exponent 1 (mostly) or another exponent, times items of other types; mixed: two categories of that type
+    with two different units"""
+    qt = rng.choice(ctx.affine_qtypes)
+    aff = [u for u in ctx.units[qt] if u in ctx.affine]
+    pick = lambda: rng.choice(aff) if rng.random() < 0.6 else rng.choice(ctx.units[qt])
+    e = rng.choice([1, 1, 1, 1, 2, -1, -2, 3])
+    if mixed and len(ctx.cats[qt]) > 1:
+        c1, c2 = rng.sample(ctx.cats[qt], 2)
+        u1 = pick()
+        u2 = rng.choice([u for u in ctx.units[qt] if u != u1])
+        q = [[c1, u1, e], [c2, u2, rng.choice([1, 1, 2])]]
+        if rng.random() < 0.5:
+            q.append(simple_q(ctx, rng)[0])
+    else:
+        q = [[rng.choice(ctx.cats[qt]), pick(), e]]
+        for _ in range(rng.choice([1, 1, 2])):
+            q.append(simple_q(ctx, rng)[0])
+        if rng.random() < 0.3:
+            q.reverse()
+    for item in q:
+        item[2] = item[2] if item in q[:1] or len(item) == 3 else item[2]
+    if len({c for c, _u, _e in q}) != len(q) or len({ctx.db.GetCategoryQuantityType(c) for c, _u, _e in q}) != len(q) - (1 if mixed and len(ctx.cats[qt]) > 1 else 0):
+        return affine_q(ctx, rng, mixed)
+    return q
+
+
+def other_units(ctx, rng, q):
+    """the same dict written with other units (offset units preferred where the quantity type has them)"""
+    out = []
+    for c, u, e in q:
+        qt = ctx.db.GetCategoryQuantityType(c)
+        cand = [v for v in ctx.units[qt] if v != u] or [u]
+        aff = [v for v in cand if v in ctx.affine]
+        out.append([c, rng.choice(aff) if aff and rng.random() < 0.6 else rng.choice(cand), e])
+    return out
 
 
 def is_normal(ctx, q):
